@@ -754,6 +754,14 @@ func main() {
 		gen(seed, tier)
 	case "impl":
 		impl()
+	case "extract":
+		repo := "/repo"
+		for i, a := range os.Args {
+			if a == "--repo" && i+1 < len(os.Args) {
+				repo = os.Args[i+1]
+			}
+		}
+		os.Exit(extract(repo))
 	default:
 		os.Exit(2)
 	}
